@@ -37,6 +37,40 @@ def event_for(obj, origin, parse_cls=None):
             'origin': origin, 'cls': type(obj).__name__}
 
 
+def ldap_alt_events():
+    """LDAP StartTLS messages whose outer SEQUENCE / operation length is written in the BER long form (1, 2 or 4 length octets)"""
+    from cryptoparser.tls import ldap as L
+    evs = []
+    objs = [L.LDAPExtendedRequestStartTLS()] + [L.LDAPExtendedResponseStartTLS(rc) for rc in list(L.LDAPResultCode)[:4]]
+    for obj in objs:
+        kind, a, typ = wire_starttls.message_abs(obj)
+        wire = bytes(obj.compose())
+        # DER layout of the composed message: 30 LL 02 01 id <tag> LL op...
+        idp, rest = wire[2:5], wire[5:]
+        tag, op = rest[0], rest[2:]
+        for where in ('outer', 'op'):
+            for k in (1, 2, 4):
+                if where == 'outer':
+                    body = idp + rest
+                    alt = bytes([0x30, 0x80 + k]) + len(body).to_bytes(k, 'big') + body
+                else:
+                    inner = bytes([tag, 0x80 + k]) + len(op).to_bytes(k, 'big') + op
+                    body = idp + inner
+                    alt = bytes([0x30, len(body)]) + body
+                o, res, _ = call(type(obj).parse_immutable, alt)
+                back, n = False, 0
+                if o == 'ok':
+                    try:
+                        b = wire_starttls.message_abs(res[0])
+                        n = res[1]
+                        back = b is not None and b[0] == kind and json.dumps(b[1], sort_keys=True) == json.dumps(a, sort_keys=True)
+                    except Exception:  # pylint: disable=broad-except
+                        back = False
+                evs.append({'ev': 'alt', 'kind': kind, 'abs': a, 'where': where, 'k': k, 'wire': list(alt), 'out': o, 'n': n, 'back_same': back,
+                            'origin': 'ber-long-length:%s:%d' % (where, k), 'cls': type(obj).__name__})
+    return evs
+
+
 def generated(rep, thorough):
     from cryptoparser.tls import mysql as M, rdp as R, openvpn as O, ldap as L, postgresql as P
     rng = rep.rng
@@ -155,6 +189,10 @@ def run(rep):
         if e:
             events.append(e)
     events += cross_type(rep, [e for e in events if e['ev'] == 'msg'])
+    alts = ldap_alt_events()
+    for e in alts:
+        rep.case(digest(['alt', e['wire']]))
+    events += alts
     for e in events:
         if e['ev'] == 'msg':
             rep.case(digest([e['kind'], e['wire']]))
